@@ -25,6 +25,8 @@ let n_of_string (s : string) : n =
   let acc = ref N0 in
   String.iter (fun c -> acc := N.add (N.mul !acc ten) (n_of_int (Char.code c - 48))) s; !acc
 
+let skipn_n (k : n) (l : n list) = skipn (N.to_nat k) l
+
 let split_on c s = if s = "" then [] else String.split_on_char c s
 
 let str_of_bytes (l : n list) = String.concat "" (List.map (fun b -> String.make 1 (Char.chr (int_of_n b))) l)
@@ -65,6 +67,119 @@ let run_c06 toks =
     disp (compute_data_hash hashed)
   | _ -> failwith "bad c06 case"
 
+
+(* ------------------------------------------------------------------------- shards *)
+let cksum (b : int array) lo hi =
+  let p = 2147483647 in
+  let a = ref 7 and c = ref 11 in
+  for i = lo to hi - 1 do
+    a := (!a * 1000003 + b.(i)) mod p;
+    c := (!c * 998244353 mod p + b.(i) + 1) mod p
+  done;
+  Printf.sprintf "%d.%d.%d" (hi - lo) !a !c
+let cksum_str (s : string) = cksum (Array.init (String.length s) (fun i -> Char.code s.[i])) 0 (String.length s)
+let arr_of_bytes (l : n list) = Array.of_list (List.map int_of_n l)
+let le_int64 (b : int array) off k =
+  let r = ref 0L in
+  for i = k - 1 downto 0 do r := Int64.logor (Int64.shift_left !r 8) (Int64.of_int b.(off + i)) done; !r
+let dec_n (x : n) : string =
+  (* decimal of an N that may exceed 63 bits: go through Int64 unsigned (values are < 2^64) *)
+  let rec to_i64 = function XH -> 1L | XO p -> Int64.shift_left (to_i64 p) 1 | XI p -> Int64.logor (Int64.shift_left (to_i64 p) 1) 1L in
+  match x with N0 -> "0" | Npos p -> Printf.sprintf "%Lu" (to_i64 p)
+
+let parse_file_op t =
+  match t with
+  | [_; h; fl; un; segs; ver; ext] ->
+    let segs = if segs = "-" then [] else List.map (fun s -> match String.split_on_char ':' s with
+        | [c; f; b; st; e] -> { sg_cas = bytes_of_hex c; sg_flags = n_of_string f; sg_bytes = n_of_string b; sg_start = n_of_string st; sg_end = n_of_string e }
+        | _ -> failwith "bad seg") (String.split_on_char ',' segs) in
+    let ver = if ver = "-" then [] else List.map bytes_of_hex (String.split_on_char ',' ver) in
+    { fi_hash = bytes_of_hex h; fi_flags = n_of_string fl; fi_unused = n_of_string un; fi_segs = segs; fi_verif = ver;
+      fi_ext = (if ext = "-" then None else Some (bytes_of_hex ext)) }
+  | _ -> failwith "bad F op"
+let parse_cas_op t =
+  match t with
+  | [_; h; fl; nb; nd; chs] ->
+    let chs = if chs = "-" then [] else List.map (fun s -> match String.split_on_char ':' s with
+        | [c; b; st; u] -> { ce_hash = bytes_of_hex c; ce_bytes = n_of_string b; ce_start = n_of_string st; ce_unused = n_of_string u }
+        | _ -> failwith "bad chunk") (String.split_on_char ',' chs) in
+    { ci_hash = bytes_of_hex h; ci_flags = n_of_string fl; ci_nbytes = n_of_string nb; ci_ndisk = n_of_string nd; ci_chunks = chs }
+  | _ -> failwith "bad C op"
+
+let dump_file (f : file_info) =
+  let segs = List.map (fun s -> Printf.sprintf "%s:%s:%s:%s:%s" (hex_of_bytes s.sg_cas) (dec_n s.sg_flags) (dec_n s.sg_bytes) (dec_n s.sg_start) (dec_n s.sg_end)) f.fi_segs in
+  let ver = List.map hex_of_bytes f.fi_verif in
+  Printf.sprintf "F %s %s %s %s %s %s" (hex_of_bytes f.fi_hash) (dec_n f.fi_flags) (dec_n f.fi_unused)
+    (if segs = [] then "-" else String.concat "," segs) (if ver = [] then "-" else String.concat "," ver)
+    (match f.fi_ext with None -> "-" | Some h -> hex_of_bytes h)
+let dump_cas (c : cas_info) =
+  let ch = List.map (fun e -> Printf.sprintf "%s:%s:%s:%s" (hex_of_bytes e.ce_hash) (dec_n e.ce_bytes) (dec_n e.ce_start) (dec_n e.ce_unused)) c.ci_chunks in
+  Printf.sprintf "C %s %s %s %s %s" (hex_of_bytes c.ci_hash) (dec_n c.ci_flags) (dec_n c.ci_nbytes) (dec_n c.ci_ndisk) (if ch = [] then "-" else String.concat "," ch)
+let dump_seg_res = function
+  | None -> "none"
+  | Some (n, s) -> Printf.sprintf "n=%s %s:%s:%s:%s:%s" (dec_n n) (hex_of_bytes s.sg_cas) (dec_n s.sg_flags) (dec_n s.sg_bytes) (dec_n s.sg_start) (dec_n s.sg_end)
+
+let split_ops toks =
+  let rec go cur acc = function
+    | [] -> List.rev (if cur = [] then acc else List.rev cur :: acc)
+    | "|" :: r -> go [] (if cur = [] then acc else List.rev cur :: acc) r
+    | t :: r -> go (t :: cur) acc r in
+  go [] [] toks
+
+let describe_bytes (bytes : n list) (ft : footer) =
+  let b = arr_of_bytes bytes in
+  let a = int_of_n ft.ft_chunk_lookup_offset and e = int_of_n ft.ft_footer_offset in
+  let n = (e - a) / 16 in
+  let ents = Array.init n (fun i -> (le_int64 b (a + 16 * i) 8, Int64.to_int (le_int64 b (a + 16 * i + 8) 4), Int64.to_int (le_int64 b (a + 16 * i + 12) 4))) in
+  let sorted = ref true in
+  for i = 0 to n - 2 do let (k1, _, _) = ents.(i) and (k2, _, _) = ents.(i + 1) in if Int64.unsigned_compare k1 k2 > 0 then sorted := false done;
+  let l = Array.to_list ents in
+  let l = List.sort (fun (k1, i1, o1) (k2, i2, o2) -> let c = Int64.unsigned_compare k1 k2 in if c <> 0 then c else compare (i1, o1) (i2, o2)) l in
+  let t = String.concat "" (List.map (fun (k, i, o) -> Printf.sprintf "%Lu,%d,%d;" k i o) l) in
+  Printf.sprintf "len=%d head=%s chunktbl=%s sorted=%b foot=%s" (Array.length b) (cksum b 0 a) (cksum_str t) !sorted (cksum b e (Array.length b))
+
+let build_mem ops =
+  List.fold_left (fun m op -> match op with
+      | "F" :: _ -> add_file_info size_replace_aware m (parse_file_op op)
+      | "C" :: _ -> add_cas_block size_replace_aware m (parse_cas_op op)
+      | _ -> m) ms_empty ops
+
+let run_c09 toks =
+  let ops = split_ops toks in
+  let m = build_mem ops in
+  let bytes = serialize_from m in
+  match load_footer bytes with
+  | None -> ["MODEL-CANNOT-LOAD-OWN-SHARD"]
+  | Some ft ->
+    let l1 = Printf.sprintf "ser %s acct=%s" (describe_bytes bytes ft) (dec_n (shard_file_size m)) in
+    let files = (match read_all_files bytes ft with Some l -> l | None -> failwith "scan files") in
+    let cass = (match read_all_cas bytes ft with Some l -> l | None -> failwith "scan cas") in
+    let l2 = Printf.sprintf "scan files=%d %s cas=%d %s" (List.length files) (cksum_str (String.concat "\n" (List.map dump_file files)))
+        (List.length cass) (cksum_str (String.concat "\n" (List.map dump_cas cass))) in
+    let nq = ref 0 in
+    let qs = List.filter_map (fun op -> match op with
+        | ["qf"; h] ->
+          let r = (match get_file_info probe_exact bytes ft (bytes_of_hex h) with
+              | Found f -> Printf.sprintf "qf%d found %s" !nq (cksum_str (dump_file f))
+              | NotFound -> Printf.sprintf "qf%d notfound" !nq
+              | CollisionError -> Printf.sprintf "qf%d error" !nq
+              | IoError -> Printf.sprintf "qf%d MODEL-IO-ERROR" !nq) in incr nq; Some r
+        | ["qc"; h] ->
+          let hb = bytes_of_hex h in
+          let tbl = read_tbl12 bytes ft.ft_cas_lookup_offset ft.ft_cas_lookup_num in
+          let r = (match search probe_exact tbl (S (S (S (S (S (S (S (S O)))))))) (truncate_hash hb) with
+              | None -> Printf.sprintf "qc%d MODEL-IO-ERROR" !nq
+              | Some idxs ->
+                if List.length idxs >= 8 then Printf.sprintf "qc%d error" !nq else
+                  let found = List.fold_left (fun acc i ->
+                      match parse_cas_info (skipn_n (N.add ft.ft_cas_info_offset (N.mul (n_of_int 48) i)) bytes) with
+                      | Some (Some c, _) when c.ci_hash = hb -> Some c
+                      | _ -> acc) None idxs in
+                  (match found with Some c -> Printf.sprintf "qc%d found %s" !nq (cksum_str (dump_cas c)) | None -> Printf.sprintf "qc%d notfound" !nq)) in
+          incr nq; Some r
+        | _ -> None) ops in
+    l1 :: l2 :: qs
+
 let run_c04 toks =
   match toks with
   | target :: rest ->
@@ -91,11 +206,12 @@ let () =
          match String.split_on_char ' ' line with
          | id :: toks ->
            let obs = try (match stream with
-             | "c04" -> run_c04 toks
-             | "c06" -> run_c06 toks
+             | "c04" -> [run_c04 toks]
+             | "c06" -> [run_c06 toks]
+             | "c09" -> run_c09 toks
              | _ -> failwith "unknown stream")
-             with Stack_overflow -> "MODEL-EXCEPTION stack-overflow" | e -> "MODEL-EXCEPTION " ^ Printexc.to_string e in
-           Printf.printf "obs %s %s\n" id obs
+             with Stack_overflow -> ["MODEL-EXCEPTION stack-overflow"] | e -> ["MODEL-EXCEPTION " ^ Printexc.to_string e] in
+           List.iter (fun o -> Printf.printf "obs %s %s\n" id o) obs
          | [] -> ()
        end
      done
